@@ -704,55 +704,78 @@ func c16Dispatch(r *core.Run) {
 // c16Once: the one-statement transaction context is dropped on every exit of the method that installed it.
 func c16Once(r *core.Run) {
 	w := r.W
+	// a statement entry of a proxy connection that installs a one-statement transaction context — assigns the
+	// connection's txCtx fields XID / TransactionMode / GlobalLockRequire, itself or through a helper — puts a
+	// fresh context back (c.txCtx = types.NewTxCtx(), inline, deferred, or by the function a helper handed back
+	// for deferring) on every exit it was installed on, failing ones included
+	ctxField := func(info *types.Info, e ast.Expr) (inner string, ok bool) {
+		// <x>.txCtx.<F> or <x>.txCtx
+		sel, isSel := ast.Unparen(e).(*ast.SelectorExpr)
+		if !isSel {
+			return "", false
+		}
+		if sel.Sel.Name == "txCtx" {
+			return "", true
+		}
+		if in, isIn := ast.Unparen(sel.X).(*ast.SelectorExpr); isIn && in.Sel.Name == "txCtx" {
+			return sel.Sel.Name, true
+		}
+		return "", false
+	}
+	n := 0
 	for _, f := range w.SortedFuncs() {
-		if f.Pkg.PkgPath != pDSSQL || w.IsTestFile(f.Decl.Pos()) || core.RecvNamed(f.Obj) == nil {
+		if f.Pkg.PkgPath != pDSSQL || w.IsTestFile(f.Decl.Pos()) || core.RecvNamed(f.Obj) == nil || f.Decl.Body == nil {
 			continue
 		}
-		calls := false
-		for _, cs := range w.Calls(f) {
-			if cs.Static != nil && cs.Static.Name() == "createOnceTxContext" {
-				calls = true
-			}
-		}
-		if !calls {
+		if !inSet(core.RecvNamed(f.Obj).Obj().Name(), "ATConn", "XAConn", "Conn") || !inSet(f.Obj.Name(), "PrepareContext", "QueryContext", "ExecContext", "Prepare", "Query", "Exec") {
 			continue
 		}
-		r.Fn(f)
-		sp := &flow.Spec{W: w, Depth: 0, Split: []flow.Tag{"true:once", "false:once"},
-			Classify: func(pkg *packages.Package, call *ast.CallExpr, callee *types.Func) []flow.Tag {
-				if callee != nil && callee.Name() == "createOnceTxContext" {
-					return []flow.Tag{"once"}
-				}
-				return nil
+		sp := &flow.Spec{W: w, Depth: 0, Inline: 2, Fork: true, DeferAtExit: true, Split: []flow.Tag{"installed"},
+			// (the context of an explicit or implicit transaction, installed by BeginTx and dropped when that
+			// transaction ends, is another mechanism: C16.reset / C02.txclosed)
+			NoDescend: func(f *types.Func) bool {
+				return implementsDriver(w, f, "ConnBeginTx") || implementsDriver(w, f, "Conn") && f.Name() == "Begin"
 			},
 			AssignTags: func(pkg *packages.Package, as *ast.AssignStmt) []flow.Tag {
-				if len(as.Lhs) == 1 && len(as.Rhs) == 1 {
-					if sel, ok := ast.Unparen(as.Lhs[0]).(*ast.SelectorExpr); ok && sel.Sel.Name == "txCtx" {
-						if c, ok := ast.Unparen(as.Rhs[0]).(*ast.CallExpr); ok {
+				for i, l := range as.Lhs {
+					fld, ok := ctxField(pkg.TypesInfo, l)
+					if !ok {
+						continue
+					}
+					if fld == "" && i < len(as.Rhs) {
+						if c, ok := ast.Unparen(as.Rhs[i]).(*ast.CallExpr); ok {
 							if g := core.Callee(pkg.TypesInfo, c); g != nil && g.Name() == "NewTxCtx" {
-								return []flow.Tag{"reset"}
+								return []flow.Tag{"reset", "-installed"}
 							}
 						}
+					}
+					if inSet(fld, "XID", "TransactionMode", "GlobalLockRequire") {
+						return []flow.Tag{"installed"}
 					}
 				}
 				return nil
 			}}
 		res := sp.Analyze(f)
-		n := 0
-		for _, ex := range res.Exits {
-			if !ex.St.Maybe("once") {
-				continue // left before the context could have been installed
+		installs := false
+		for _, ap := range res.Assigns {
+			if inSet("installed", ap.Tags...) {
+				installs = true
 			}
+		}
+		if !installs {
+			continue
+		}
+		r.Fn(f)
+		for _, ex := range res.Exits {
 			n++
 			r.Sites++
-			role := exitRole(ex, func(t string) bool { return strings.HasSuffix(t, ":once") })
-			// either nothing was installed (the answer was false) or the fresh context is put back
-			r.Check(ex.St.Has("false:once") || ex.St.Has("reset") || ex.St.Has("defer:reset"), "C16.once", core.ShortKey(f.Obj)+" "+role+" drops the one-statement transaction context", w.Pos(ex.Pos),
-				"fresh context put back (deferred or inline)", "this exit leaves the one-statement transaction context (AT/XA mode, the global xid) on the connection: a later local transaction on the same connection is handled as a branch of a finished global transaction instead of being passed to the driver")
+			role := exitRole(ex, func(t string) bool { return t == "installed" || t == "reset" })
+			r.Check(!ex.St.Maybe("installed"), "C16.once", core.ShortKey(f.Obj)+" "+role+" drops the one-statement transaction context", w.Pos(ex.Pos),
+				"fresh context put back (deferred or inline) wherever one was installed", "this exit leaves the one-statement transaction context (AT/XA mode, the global xid) on the connection: a later local transaction on the same connection is handled as a branch of a finished global transaction instead of being passed to the driver")
 		}
-		if n == 0 {
-			r.Undecided("C16.once", core.ShortKey(f.Obj)+" exits after createOnceTxContext answered true", w.Pos(f.Decl.Pos()), "no exit found on the true edge of createOnceTxContext")
-		}
+	}
+	if n == 0 {
+		r.Undecided("C16.once", "statement entries installing a one-statement transaction context", "", "none found")
 	}
 }
 
